@@ -3,6 +3,7 @@ use crate::fw::{Ctx, Report, Verdict};
 pub mod c04;
 pub mod c05;
 pub mod c23;
+pub mod c25;
 pub mod c26;
 pub mod srvchk;
 pub mod c10;
@@ -52,6 +53,7 @@ pub fn lookup(id: &str) -> Option<Entry> {
         "C21" => e!(c21),
         "C22" => e!(c22),
         "C23" | "C24" => e!(c23),
+        "C25" => e!(c25),
         "C26" | "C27" => e!(c26),
         _ => None,
     }
